@@ -92,22 +92,22 @@ Print Assumptions generic_budget_monotone.
 (* ---------------------------------------------------------------- GroupBCD --------------------------------- *)
 Require Import SK.Skel.GroupBCD SK.Skel.GroupBCDProofs.
 Theorem groupbcd_never_worse_than_start :
-  forall {A} (cfg : @config R) (K : @kernels R A) (E : list R -> list R -> Ext R),
+  forall {A} (cfg : @config R) (K : @kernels R A) (ng : nat) (E : list R -> list R -> Ext R),
   (forall w Xw, bind (k_df_value K w Xw) (fun d => bind (k_pen_value K (wp cfg w)) (fun pv => Ok (eadd (Fin d) pv))) = Ok (E w Xw)) ->
   (forall lip w Xw ws w' Xw', k_epoch K (wp cfg w) Xw lip ws = Ok (w', Xw') -> ext_le (E (with_wp cfg w w') Xw') (E w Xw)) ->
   (forall w Xw w' Xw', b_intercept_update cfg K w Xw = Ok (w', Xw') -> ext_le (E w' Xw') (E w Xw)) ->
-  forall w0 Xw0 out, bsolve cfg K (Some w0) (Some Xw0) = Ok out -> ext_le (E (b_w (g_s out)) (b_Xw (g_s out))) (E w0 Xw0).
+  forall w0 Xw0 out, bsolve cfg K ng (Some w0) (Some Xw0) = Ok out -> ext_le (E (b_w (g_s out)) (b_Xw (g_s out))) (E w0 Xw0).
 Proof. intros A. exact (@bsolve_descends A). Qed.
 Print Assumptions groupbcd_never_worse_than_start.
 
 Theorem groupbcd_monotone_in_budget :
-  forall {A} (cfg : @config R) (K : @kernels R A) (E : list R -> list R -> Ext R),
+  forall {A} (cfg : @config R) (K : @kernels R A) (ng : nat) (E : list R -> list R -> Ext R),
   (forall w Xw, bind (k_df_value K w Xw) (fun d => bind (k_pen_value K (wp cfg w)) (fun pv => Ok (eadd (Fin d) pv))) = Ok (E w Xw)) ->
   (forall lip w Xw ws w' Xw', k_epoch K (wp cfg w) Xw lip ws = Ok (w', Xw') -> ext_le (E (with_wp cfg w w') Xw') (E w Xw)) ->
   (forall w Xw w' Xw', b_intercept_update cfg K w Xw = Ok (w', Xw') -> ext_le (E w' Xw') (E w Xw)) ->
   forall lip k s0 out1 out2,
-  grun (tol cfg) (bcrit cfg K lip) (bbody cfg K lip) (bobjective cfg K) k s0 = Ok out1 ->
-  grun (tol cfg) (bcrit cfg K lip) (bbody cfg K lip) (bobjective cfg K) (S k) s0 = Ok out2 ->
+  grun (tol cfg) (bcrit cfg K lip ng) (bbody cfg K lip ng) (bobjective cfg K) k s0 = Ok out1 ->
+  grun (tol cfg) (bcrit cfg K lip ng) (bbody cfg K lip ng) (bobjective cfg K) (S k) s0 = Ok out2 ->
   ext_le (E (b_w (g_s out2)) (b_Xw (g_s out2))) (E (b_w (g_s out1)) (b_Xw (g_s out1))).
 Proof. intros A. exact (@brun_budget_monotone A). Qed.
 Print Assumptions groupbcd_monotone_in_budget.
